@@ -914,9 +914,11 @@ def assume_method(db, kind, meth, returns=None, raises=(), mutates=False, pure=F
             extra = []
             for k in sorted(kw):
                 extra += [k, kw[k]]
-            yield st, pure_result(ex, st, f"{kind}.{meth}", returns, [recv] + list(args) + extra)
+            r = pure_result(ex, st, f"{kind}.{meth}", returns, [recv] + list(args) + extra)
         else:
-            yield st, db.make_value(ex, st, returns, f"{kind}_{meth}")
+            r = db.make_value(ex, st, returns, f"{kind}_{meth}")
+        st.trace.append(("ret", f"{kind}.{meth}", r))  # call_result('Kind.meth') of a collaborator method
+        yield st, r
 
     db.opaque_methods[(kind, meth)] = handler
     db.assumed_collaborators.add(f"{kind}.{meth}")
@@ -1562,7 +1564,10 @@ def apply_contract(ex: Exec, st: State, f: FuncRef, node, c: Contract, args, kwa
     if missing:
         raise Unsupported(f"contract {c.key} used at a call site without instantiating its ghost parameters {missing}")
     caller = ex.cur_name
-    st.trace.append(("call", c.qualname, None, tuple(env.get(a.arg) for a in node.args.posonlyargs + node.args.args), ()))
+    kw_seen = ()
+    if node.args.kwarg is not None and isinstance(env.get(node.args.kwarg.arg), bm.Kwargs):
+        kw_seen = tuple(sorted(env[node.args.kwarg.arg].known.items(), key=lambda kv: kv[0]))  # what **kwargs received
+    st.trace.append(("call", c.qualname, None, tuple(env.get(a.arg) for a in node.args.posonlyargs + node.args.args), kw_seen))
     # a contract whose parameter is specialised to a literal (parse_digits#... with digits=2) speaks about calls with
     # that argument only: "the argument is that literal" is an obligation of the caller
     for pname, spec in c.params.items():
